@@ -56,7 +56,7 @@ def allocAll (cfg : Cfg) (s : State) : List (Nat × Nat) → Option State
 
 def showOutcome (k : Call) : String :=
   match k.pc with
-  | .returned (.resp f) => toString f.tag
+  | .returned (.resp f) => if f.tag ≥ 900000 then "E" else toString f.tag
   | .returned _ => "E"
   | .abandoning _ => "E"
   | _ => "HANG"
@@ -65,6 +65,7 @@ def parseTok (ids : List Nat) (unknownBase : Nat) (tag : Nat) (t : String) : Opt
   let n := (t.drop 1).toNat?
   match t.front, n with
   | 'e', some k => some { id := unknownBase + k, notify := false, tag := tag }   -- unknown id, ec != 0
+  | 'v', some c => (ids[c]?).map fun id => { id := id, notify := false, tag := 900000 + tag }  -- wrong version: the call fails
   | 'r', some c => (ids[c]?).map fun id => { id := id, notify := false, tag := tag }
   | 'n', some c => (ids[c]?).map fun id => { id := id, notify := true, tag := tag }
   | 'u', some k => some { id := unknownBase + k, notify := false, tag := tag }
